@@ -84,6 +84,10 @@ package value
 //@ interface-contract Value.ToMap
 //@   assigns nothing
 //@ interface-contract Value.ToFloat
+//@   property C07
+//@   ensures[float] typeis(self, Float) ==> result1 && result0 == float64(unbox(self, Float))
+//@   ensures[int] typeis(self, Int) ==> result1 && result0 == float64(int(unbox(self, Int)))
+//@   ensures[others] typeis(self, Bool) || typeis(self, String) || typeis(self, Closure) || typeis(self, *List) || typeis(self, Map) ==> !result1
 //@   assigns nothing
 //@ interface-contract Value.GetType
 //@   assigns nothing
@@ -157,7 +161,7 @@ package value
 
 // Map methods in terms of the view
 //@ func (v Map) PutM
-//@   property C13, C09
+//@   property C13, C09, C07
 //@   safety C13
 //@   requires validStack(stack) && stack.size >= 3
 //@   ensures[keys] result1 == nil ==> (forall k string :: mhas(result0.m, k) == (mhas(v.m, k) || k == string(unbox(stackArg(stack, 1), String))))
@@ -167,13 +171,13 @@ package value
 //@   assigns nothing
 
 //@ func (v Map) ContainsKey
-//@   property C13
+//@   property C13, C07
 //@   safety C13
 //@   ensures result == box(Bool(mhas(v.m, string(key))))
 //@   assigns nothing
 
 //@ func (v Map) GetM
-//@   property C13
+//@   property C13, C07
 //@   safety C13
 //@   requires validStack(stack) && stack.size >= 2
 //@   ensures[found] result1 == nil ==> typeis(stackArg(stack, 1), String) && mhas(v.m, string(unbox(stackArg(stack, 1), String))) && result0 == mget(v.m, string(unbox(stackArg(stack, 1), String)))
@@ -181,7 +185,7 @@ package value
 //@   assigns nothing
 
 //@ func (v Map) IsAvail
-//@   property C13
+//@   property C13, C07
 //@   safety C13
 //@   requires validStack(stack) && stack.size >= 1
 //@   ensures[all] result1 == nil && result0 == box(Bool(true)) ==> (forall i in 1..stack.size :: typeis(stackArg(stack, i), String) && mhas(v.m, string(unbox(stackArg(stack, i), String))))
@@ -214,14 +218,18 @@ package value
 //@   law total-on Int,Float
 //@ table Add
 //@   safety C05
+//@   law[C07] numeric-arith +
 //@ table Sub
 //@   safety C05
+//@   law[C07] numeric-arith -
 //@ table Mul
 //@   safety C05
+//@   law[C07] numeric-arith *
 //@   law[C02] commutative
 //@   law[C02] associative
 //@ table Div
 //@   safety C05
+//@   law[C07] numeric-arith /
 //@ table Mod
 //@   safety C05
 //@ table Left
@@ -428,13 +436,13 @@ package value
 // windows are views on the receiver's storage: they must be capacity-capped (an append to a window would otherwise
 // overwrite the element of the receiver that follows the window)
 //@ func (l *List) MovingWindow
-//@   property C09
+//@   property C09, C07
 //@   requires l != nil && validStack(st)
 //@   loop 1 invariant validStack(st)
 //@   loop 2 invariant (cap(mainList) == 0 || fresh(mainList)) && validStack(st)
 //@   loop 3 invariant (cap(mainList) == 0 || fresh(mainList)) && validStack(st)
 //@ func (l *List) MovingWindowRemove
-//@   property C09
+//@   property C09, C07
 //@   requires l != nil && validStack(st)
 //@   loop 1 invariant (cap(mainList) == 0 || fresh(mainList)) && validStack(st)
 //@   loop 2 invariant (cap(mainList) == 0 || fresh(mainList)) && validStack(st)
@@ -451,3 +459,29 @@ package value
 //@   property C09
 //@   ensures[wrapper] result1 == nil ==> typeis(result0.m, MergeMap)
 //@   assigns nothing
+
+// ---------------------------------------------------------------- C07: built-ins with their own loops
+//@ func (s String) Cut
+//@   property C07
+//@   safety C05
+//@   requires validStack(st) && st.size >= 3
+//@   ensures[empty-receiver] result1 == nil && len(string(s)) == 0 ==> result0 == box(String(""))
+//@   ensures[type-check] (result1 == nil) == (typeis(stackArg(st, 1), Int) && typeis(stackArg(st, 2), Int))
+//@   loop 1 invariant len(str) <= len(string(s))
+
+// numeric static functions on int and float operands (integers mathematical: the overflow of -MinInt / v*v is excluded
+// by the property statement)
+//@ predicate argInt(st any, i int) = int(unbox(stackArg(st, i), Int))
+//@ predicate argFloat(st any, i int) = float64(unbox(stackArg(st, i), Float))
+//@ entry New static:abs
+//@   property C07
+//@   ensures[int] typeis(stackArg(st, 0), Int) ==> result1 == nil && result0 == box(Int(ite(argInt(st, 0) < 0, -argInt(st, 0), argInt(st, 0))))
+//@   ensures[float] typeis(stackArg(st, 0), Float) ==> result1 == nil && result0 == box(Float(ite(argFloat(st, 0) < 0, -argFloat(st, 0), argFloat(st, 0))))
+//@ entry New static:sign
+//@   property C07
+//@   ensures[int] typeis(stackArg(st, 0), Int) ==> result1 == nil && result0 == box(Int(ite(argInt(st, 0) < 0, -1, ite(argInt(st, 0) == 0, 0, 1))))
+//@   ensures[float] typeis(stackArg(st, 0), Float) ==> result1 == nil && result0 == box(Float(ite(argFloat(st, 0) < 0, -1.0, ite(argFloat(st, 0) == 0, 0.0, 1.0))))
+//@ entry New static:sqr
+//@   property C07
+//@   ensures[int] typeis(stackArg(st, 0), Int) ==> result1 == nil && result0 == box(Int(argInt(st, 0) * argInt(st, 0)))
+//@   ensures[float] typeis(stackArg(st, 0), Float) ==> result1 == nil && result0 == box(Float(argFloat(st, 0) * argFloat(st, 0)))
